@@ -147,12 +147,21 @@ func (u *multiUpdateExecutor) afterImage(ctx context.Context, beforeImages []*ty
 	if len(beforeImages) == 0 {
 		return nil, errors.New("empty beforeImages")
 	}
-	beforeImage := beforeImages[0]
 
 	tableName := u.parserCtx.MultiStmt[0].UpdateStmt.TableRefs.TableRefs.Left.(*ast.TableSource).Source.(*ast.TableName).Name.O
 	metaData, err := datasource.GetTableCache(types.DBTypeMySQL).GetTableMeta(ctx, u.execContext.DBName, tableName)
 	if err != nil {
 		return nil, err
+	}
+
+	// the before image of THIS table: a batch over several tables hands over the before images of all of them,
+	// in the order a map gave them out
+	beforeImage := beforeImages[0]
+	for _, candidate := range beforeImages {
+		if candidate != nil && strings.EqualFold(candidate.TableName, metaData.TableName) {
+			beforeImage = candidate
+			break
+		}
 	}
 
 	// no row was selected by any of the statements: there is nothing to look up (and no key for the IN list)
